@@ -605,7 +605,8 @@ func genSessSeq(rng *PRNG, ids []uint64, self uint64, handler bool, n int) []ses
 	for _, id := range ids {
 		callers = append(callers, nodeName(id))
 	}
-	strangers := []string{"client1", "", "mallory", "signer-test", "Signer-Test01", nodeName(77)}
+	strangers := []string{"client1", "", "mallory", "signer-test", "Signer-Test01", nodeName(77),
+		nodeName(ids[0]) + "0", nodeName(ids[len(ids)-1]) + ".evil.example", " " + nodeName(ids[0])} // names that extend a peer's name
 	pickCaller := func() (string, uint64) {
 		if handler && rng.Chance(35) {
 			return strangers[rng.Intn(len(strangers))], 0
